@@ -448,6 +448,7 @@ fn make_call(rd: &RunDir, cmd: &Cmd, repo: &Path, sim_now: i64, case_dir: &str) 
         stderr: crate::proc::Stdout::Capture,
         exe: None,
         umask: None,
+        cpus: None,
     };
     match cmd.cwd.as_str() {
         "deleted" => {
